@@ -263,6 +263,12 @@ func runCleanerSim(env *RunEnv) {
 			}
 		case 2:
 			n := foreign[t.Choose("cl-foreign", len(foreign))]
+			if t.Chance("cl-foreign-otherdb", 350) && len(insts) > 0 {
+				// a current snapshot of another database that shares the
+				// bucket and whose name starts with this database's name
+				odb := []string{DBName + "x", DBName + "2", DBName + "-eu"}[t.Choose("cl-otherdb", 3)]
+				n = snapName(odb, insts[t.Choose("cl-otherdb-inst", len(insts))].name, time.Now(), "")
+			}
 			b.Put(n, []byte("f"), "world")
 		case 3:
 			// merge-commit notification: possibly late, partial, for unknown
